@@ -138,14 +138,14 @@ async def run_asyncio(case):
                 g = W.gates[t]
                 g["arrived"].clear()
                 g["resume"].set()
-                await g["arrived"].wait()
+                await asyncio.wait_for(g["arrived"].wait(), TURNSTILE_TIMEOUT)
         elif op[0] == "cancel":
             t = op[1]
             if t in tasks and t not in results and t in W.traces:
                 g = W.gates[t]
                 g["arrived"].clear()
                 tasks[t].cancel()
-                await g["arrived"].wait()
+                await asyncio.wait_for(g["arrived"].wait(), TURNSTILE_TIMEOUT)
     out = []
     for i in range(n):
         out.append({"events": W.traces.get(i, [])[:300], "outcome": results.get(i), "in_progress": finals.get(i, []),
@@ -155,6 +155,9 @@ async def run_asyncio(case):
             t.cancel()
     await asyncio.gather(*tasks.values(), return_exceptions=True)
     return out
+
+
+TURNSTILE_TIMEOUT = 8
 
 
 def run_threads(case):
@@ -206,7 +209,7 @@ def run_threads(case):
                 g = W.gates[t]
                 g["arrived"].clear()
                 g["resume"].set()
-                if not g["arrived"].wait(20):
+                if not g["arrived"].wait(TURNSTILE_TIMEOUT):
                     raise RuntimeError("turnstile timeout")
     out = []
     for i in range(n):
@@ -223,14 +226,23 @@ def main():
     payload = json.load(sys.stdin)
     sys.setrecursionlimit(1500)
     res = []
+    hangs = 0
     for case in payload["cases"]:
+        if hangs >= 3:
+            # a program that never reaches its next suspension point costs a time-out each: stop after three
+            res.append({"defn_error": "Skipped", "msg": "three earlier programs of this batch hung"})
+            continue
         try:
             if case["mode"] == "asyncio":
                 res.append(asyncio.run(run_asyncio(case)))
             else:
                 res.append(run_threads(case))
         except BaseException as err:  # noqa
-            res.append({"defn_error": type(err).__name__, "msg": str(err)[:300]})
+            if isinstance(err, (asyncio.TimeoutError, TimeoutError)) or "turnstile timeout" in str(err):
+                hangs += 1
+                res.append({"defn_error": "Hang", "msg": "a task or thread did not reach its next suspension point"})
+            else:
+                res.append({"defn_error": type(err).__name__, "msg": str(err)[:300]})
     json.dump(res, sys.stdout)
     sys.stdout.flush()
     os._exit(0)
